@@ -97,15 +97,23 @@ func GuardFast(f func() error) (o Outcome) {
 	return Outcome{}
 }
 
-func SHash(s []byte) int64 {
-	h := uint64(2166136261)
-	for _, b := range s {
-		h = (h*16777619 + uint64(b) + 1) & 0xFFFFFFFF
+// Sums is the model's `sums`: sum of (byte+1) and sum of the running sums.
+func Sums(s []byte) (int64, int64) {
+	var a, b int64
+	for _, x := range s {
+		a += int64(x) + 1
+		b += a
 	}
-	return int64(h)
+	return a, b
 }
 
-func dig(o []int64, s []byte) []int64 { return append(o, int64(len(s)), SHash(s)) }
+// Dig appends the model's `dig s` = [len; sums].
+func Dig(o []int64, s []byte) []int64 {
+	a, b := Sums(s)
+	return append(o, int64(len(s)), a, b)
+}
+
+func dig(o []int64, s []byte) []int64 { return Dig(o, s) }
 
 func flatItem(o []int64, it *cfg.VItem) []int64 {
 	o = append(o, int64(it.Kind), int64(len(it.Nums)))
